@@ -40,16 +40,16 @@ def varints(an, rep):
         bodies[k] = b
         R0.ok()
     try:
-        _run(rep, bodies, R0)
+        _run(rep, bodies, R0, core)
     except Unsupported as e:
         R0.fail("varint routines", "unsupported construct", "bit-level interpretation left the exact domain: %s" % e)
 
 
-def _run(rep, bodies, R0):
+def _run(rep, bodies, R0, core):
     # ---------------------------------------------------------------- B1 / B6
     R1 = rep.rule("B1", "write_var_u32: on the path where bits >= 7k are zero and bits >= 7(k-1) are not all zero (k = 1..5) "
                         "the emitted bytes are b_i = x[7i..7i+6] | (i<k-1)<<7: layout, minimal length, continuation bits")
-    res = Interp(bodies["w32"], {2: _x()}).run()
+    res = Interp(bodies["w32"], {2: _x()}, crate=core).run()
     R1.check(len(res) == 5, "write_var_u32", "paths", "expected 5 width classes, found %d paths" % len(res))
     seen = {}
     for r in res:
@@ -88,7 +88,7 @@ def _run(rep, bodies, R0):
     R1.check(set(seen) == {1, 2, 3, 4, 5}, "write_var_u32", "width classes", "byte counts produced: %s" % sorted(seen))
     # ---------------------------------------------------------------- B2
     R2 = rep.rule("B2", "write_var_i32 passes zigzag(x) = (x << 1) ^ (x >> 31) to write_var_u32 and writes nothing else")
-    res2 = Interp(bodies["wi32"], {2: _x("i32")}).run()
+    res2 = Interp(bodies["wi32"], {2: _x("i32")}, crate=core).run()
     zig = None
     if R2.check(len(res2) == 1 and len(res2[0].out) == 1 and isinstance(res2[0].out[0], tuple), "write_var_i32", "shape",
                 "expected exactly one write_var_u32 call"):
@@ -100,7 +100,7 @@ def _run(rep, bodies, R0):
     # ---------------------------------------------------------------- B3
     R3 = rep.rule("B3", "read_var_u32: with continuation bits 1..1,0 on bytes 0..k-1 (k<5; any 5th byte) the result is the "
                         "little-endian concatenation of the low 7 bits")
-    res3 = Interp(bodies["r32"], {}).run()
+    res3 = Interp(bodies["r32"], {}, crate=core).run()
     ok_paths = [r for r in res3 if isinstance(r.ret, tuple) and r.ret[0] == "variant" and r.ret[1] == "Ok"]
     R3.check(len(ok_paths) == 5, "read_var_u32", "paths", "expected 5 Ok paths, found %d" % len(ok_paths))
     for r in ok_paths:
@@ -123,7 +123,7 @@ def _run(rep, bodies, R0):
                  "decoded value on the %d-byte path is %r, expected %r" % (k, got, want), sample={"k": k, "value": repr(got)})
     # ---------------------------------------------------------------- B4
     R4 = rep.rule("B4", "read_var_i32 returns (r >> 1) ^ -(r & 1) of the value read by read_var_u32")
-    res4 = Interp(bodies["ri32"], {}).run()
+    res4 = Interp(bodies["ri32"], {}, crate=core).run()
     ok4 = [r for r in res4 if isinstance(r.ret, tuple) and r.ret[0] == "variant" and r.ret[1] == "Ok"]
     if R4.check(len(ok4) == 1, "read_var_i32", "paths", "expected one Ok path"):
         rr = [bvar("r%d" % i) for i in range(32)]
@@ -135,7 +135,7 @@ def _run(rep, bodies, R0):
     R5 = rep.rule("B5", "composition: read_var_u32 over the bytes of every write_var_u32 path selects exactly one reader path, "
                         "consumes exactly those bytes and yields x; read_var_i32(zigzag(x)) = x")
     for k, r in sorted(seen.items()):
-        rr = Interp(bodies["r32"], {}, reader_bytes=r.out, sub=r.sub).run()
+        rr = Interp(bodies["r32"], {}, reader_bytes=r.out, sub=r.sub, crate=core).run()
         oks = [q for q in rr if isinstance(q.ret, tuple) and q.ret[0] == "variant" and q.ret[1] == "Ok"]
         okc = len(rr) == 1 and len(oks) == 1 and oks[0].nread == k
         got = oks[0].ret[2][0] if oks else None
@@ -144,7 +144,7 @@ def _run(rep, bodies, R0):
                  "k=%d" % k, "reading the %d byte(s) written gives %r (consumed %s), expected %r" %
                  (k, got, [q.nread for q in rr], want), sample={"k": k, "read(write(x))": repr(got)})
     if zig is not None:
-        rr = Interp(bodies["ri32"], {"$r": zig}).run()
+        rr = Interp(bodies["ri32"], {"$r": zig}, crate=core).run()
         oks = [q for q in rr if isinstance(q.ret, tuple) and q.ret[0] == "variant" and q.ret[1] == "Ok"]
         got = oks[0].ret[2][0] if oks else None
         want = _x("i32")
